@@ -122,6 +122,7 @@ def expected_report(version, vector, want_json):
     o = val
     rep = {"scores": list(o.scores()), "clean": o.clean_vector(), "rh": o.rh_vector(), "ver": ver}
     rep["severities"] = list(o.severities()) if ver in ("3", "4") else None
+    rep["severities2"] = list(o.severities()) if ver == "2" else None
     if want_json:
         rep["json"] = json.loads(json.dumps(o.as_json(sort=True, minimal=True)), object_pairs_hook=OrderedDict)
     return ("report", rep)
@@ -163,6 +164,14 @@ def compare_report(rep, out, want_json):
                 fails.append(failure("no %s line or 'None'" % lab, toks))
             continue
         want = [str(sc)] + (["(%s)" % rep["severities"][i]] if rep["severities"] else [])
+        if rep["ver"] == "2" and rep.get("severities2") and toks is not None:
+            # 'the scores with their ratings ... as the library API reports them': CVSS2.severities() reports ratings, the calculator prints
+            # the bare number for v2.  Recognised by its exact shape (listed known finding); anything else on the line is judged as usual
+            if toks[:2] == [str(sc), "(%s)" % rep["severities2"][i]]:
+                continue
+            if toks[:1] == [str(sc)] and (len(toks) == 1 or not toks[1].startswith("(")):
+                fails.append(failure("%s: %s (%s)" % (lab, sc, rep["severities2"][i]), " ".join(toks), key="cli.v2-no-ratings"))
+                continue
         if toks is None:
             fails.append(failure("%s: %s" % (lab, " ".join(want)), "line missing"))
         elif toks[:len(want)] != want:
@@ -278,7 +287,7 @@ def check_cli(inp):
         return []       # the bare '--' is consumed by argparse itself, differently in different Python versions: outside the domain
     out = r["out"]
     alternatives = []
-    if vector:      # an empty VECTOR is read as 'no vector given' (the program asks interactively)
+    if vector is not None:      # an empty VECTOR is a vector that was given (and is not valid)
         for version in versions:
             kind, rep = expected_report(version, vector, want_json)
             if kind == "report":
@@ -308,7 +317,7 @@ def check_cli(inp):
                     alternatives.append([failure("model vector %r accepted by the API" % vec, rep)])
                 else:
                     alternatives.append(compare_report(rep, out, want_json))
-    best = min(alternatives, key=len)
+    best = min(alternatives, key=lambda f: len([x for x in f if not x.get("key")]))      # a listed known finding does not make an alternative worse
     return best
 
 
@@ -418,7 +427,7 @@ def hyp_part(n_examples, shard, n_sub):
             b = cli.run_subprocess(inp["argv"], inp["stdin"], console_script=cs, env_extra=sub["env"], plant=planted_file(sub))
             if b["status"] != 0 or "Traceback" in b["err"]:
                 raise runner.Falsified("cli", sub, [failure("exit status 0, no traceback", {"status": b["status"], "stderr": b["err"][-300:]})])
-            if inp["stdin"] is None and k % 2 == 0 and all(ord(c) < 128 for x in inp["argv"] for c in x) and vector_arg(expand(inp["argv"])):
+            if inp["stdin"] is None and k % 2 == 0 and all(ord(c) < 128 for x in inp["argv"] for c in x) and vector_arg(expand(inp["argv"])) is not None:
                 # the same command line typed at a terminal of some size
                 term = dict(inp, pty=[(80, 24), (40, 10), (132, 50), (20, 5), (200, 60), (81, 25)][(k // 2) % 6], console_script=cs)
                 part.classes["terminal %dx%d" % tuple(term["pty"])] += 1
@@ -483,6 +492,6 @@ def run(tier, t0):
             "non-trivial = valid vector with -j, or invalid vector, or truncated stdin; distinct by hash")
     return runner.finish(part, tier, t0, rule,
                          ["coverage-guided: " + fuzz_note, "several version flags: the report of any selected version is accepted (precedence undefined by the statement)",
-                          "an empty VECTOR is read as 'no vector'; layout/padding, banners and prompts are not asserted; ratings are required for v3/v4 (the CLI prints none for v2); a None v2 score line may be printed or omitted"],
+                          "layout/padding, banners and prompts are not asserted; the missing v2 ratings are a listed known finding; a None v2 score line may be printed or omitted"],
                          required=("dialogue at a terminal", "clustered-short-flags", "mode:valid", "mode:other-version", "mode:mutant", "mode:text", "mode:argparse-special", "mode:interactive", "mode:interactive-eof",
                                    "flags=0", "flags=1", "flags=2", "json", "subprocess"))
